@@ -320,7 +320,13 @@ impl CursorTracker for CursorTrackerImpl<'_> {
             cursor.cursor.0 = match cursor.tok_pos {
                 TokPos::Content { offset } => {
                     // offset into the token content, but don't go over the end of the token if its length has changed
-                    new_token_offset as u32 + offset.min(tok.get_content().len() as u32)
+                    let content = tok.get_content();
+                    let mut offset = (offset as usize).min(content.len());
+                    // ...and if the content itself has changed, don't end up inside a character
+                    while !content.is_char_boundary(offset) {
+                        offset -= 1;
+                    }
+                    (new_token_offset + offset) as u32
                 }
                 TokPos::MultilineContent {
                     reverse_col,
